@@ -123,6 +123,16 @@ pub trait Check: Sync + Send {
     fn stub_components(&self) -> Vec<&'static str> {
         Vec::new()
     }
+    /// Real-time watchdog per run (seconds). It only exists to turn a genuine
+    /// hang into a report: the bounded work of a run is far below it.
+    fn watchdog_secs(&self) -> u64 {
+        300
+    }
+    /// Is "a run did not return" a violation of this property (C03) or a
+    /// harness error (everything else)?
+    fn hang_is_violation(&self) -> bool {
+        false
+    }
     /// additional coverage keys (e.g. `exhaustive`, stat budget)
     fn extra_coverage(&self, _tier: Tier, _counters: &BTreeMap<String, u64>) -> serde_json::Map<String, Value> {
         serde_json::Map::new()
@@ -426,10 +436,33 @@ fn run_tier<C: Check>(check: &C, tier: Tier) -> i32 {
     let abort = AtomicBool::new(false);
     let outs: Mutex<Vec<WorkerOut<C::Scenario>>> = Mutex::new(Vec::new());
     const CHUNK: u64 = 64;
+    // heartbeat per worker: (run index + 1, start in ms since t0); 0 = idle
+    let beats: Vec<(AtomicU64, AtomicU64)> = (0..threads).map(|_| (AtomicU64::new(0), AtomicU64::new(0))).collect();
+    let done = AtomicBool::new(false);
 
     std::thread::scope(|s| {
-        for _ in 0..threads {
-            s.spawn(|| {
+        // watchdog
+        s.spawn(|| {
+            let limit_ms = check.watchdog_secs().saturating_mul(1000);
+            while !done.load(Ordering::Relaxed) {
+                std::thread::sleep(std::time::Duration::from_millis(200));
+                let now = t0.elapsed().as_millis() as u64;
+                for (run1, start) in &beats {
+                    let r = run1.load(Ordering::Relaxed);
+                    let st = start.load(Ordering::Relaxed);
+                    if r != 0 && now.saturating_sub(st) > limit_ms && run1.load(Ordering::Relaxed) == r {
+                        report_hang(check, &root, seed, tier, r - 1);
+                    }
+                }
+            }
+        });
+        let workers: Vec<_> = (0..threads).map(|wi| {
+            let beats = &beats;
+            let next = &next;
+            let abort = &abort;
+            let harness_error = &harness_error;
+            let outs = &outs;
+            s.spawn(move || {
                 let mut w = WorkerOut::<C::Scenario> {
                     obs: Obs::default(),
                     fps: Vec::new(),
@@ -444,6 +477,8 @@ fn run_tier<C: Check>(check: &C, tier: Tier) -> i32 {
                         break;
                     }
                     for i in start..(start + CHUNK).min(total) {
+                        beats[wi].1.store(t0.elapsed().as_millis() as u64, Ordering::Relaxed);
+                        beats[wi].0.store(i + 1, Ordering::Relaxed);
                         let r = catch_unwind(AssertUnwindSafe(|| {
                             let mut g = Xo::derive(seed, check.id(), 0, i);
                             let sc = check.generate(&mut g, tier, i);
@@ -493,9 +528,14 @@ fn run_tier<C: Check>(check: &C, tier: Tier) -> i32 {
                         }
                     }
                 }
+                beats[wi].0.store(0, Ordering::Relaxed);
                 outs.lock().unwrap().push(w);
-            });
+            })
+        }).collect();
+        for w in workers {
+            let _ = w.join();
         }
+        done.store(true, Ordering::Relaxed);
     });
 
     if let Some(e) = harness_error.into_inner().unwrap() {
@@ -689,6 +729,39 @@ fn run_tier<C: Check>(check: &C, tier: Tier) -> i32 {
     } else {
         0
     }
+}
+
+/// A run did not return within the watchdog: regenerate its scenario (a pure
+/// function of seed and index), write it as a replay file, report and exit.
+fn report_hang<C: Check>(check: &C, root: &Path, seed: u64, tier: Tier, run: u64) -> ! {
+    let mut g = Xo::derive(seed, check.id(), 0, run);
+    let sc = check.generate(&mut g, tier, run);
+    let file = root.join("replays").join(format!("{}-hang-{}-{}.json", check.id(), seed, run));
+    let rf = ReplayFile {
+        property: check.id().to_string(),
+        clause: "returns".into(),
+        key: "hang".into(),
+        message: format!("run {run} did not return within {} s", check.watchdog_secs()),
+        verif_seed: seed,
+        run,
+        tier: tier.name().to_string(),
+        shrink_steps: 0,
+        scenario: serde_json::to_value(&sc).unwrap_or(Value::Null),
+    };
+    let _ = std::fs::create_dir_all(root.join("replays"));
+    let _ = std::fs::write(&file, serde_json::to_string_pretty(&rf).unwrap_or_default());
+    if check.hang_is_violation() {
+        println!("  run {run} did not return within {} s (not minimised)", check.watchdog_secs());
+        println!("VIOLATION property={} replay={}", check.id(), file.display());
+        std::process::exit(1);
+    }
+    eprintln!(
+        "HARNESS-ERROR: property={} run {run} did not return within {} s; scenario in {}",
+        check.id(),
+        check.watchdog_secs(),
+        file.display()
+    );
+    std::process::exit(2);
 }
 
 fn sanitize(s: &str) -> String {
